@@ -295,6 +295,12 @@ class C20(Prop):
                          'peer': [['answer', 1.5], ['answer', 0.7], ['answer', 0.05]],
                          'callers': [{'start': 0, 'batch': 0}, {'start': 1.0, 'batch': 0}, {'start': 2.0, 'batch': 0}, {'start': 2.5, 'batch': 2},
                                      {'start': 3.0, 'batch': 0}], 'lose_at': None, 'horizon': 60})
+        # earlier requests have timed out (their finished futures are still registered) when the connection is lost with later
+        # requests and a batch outstanding: those are cancelled at the loss
+        directed.append({'kind': 'workload', 'cfg': {'timeout': 1.0, 'trt': 0.5, 'recal': 30}, 'peer': [['never']],
+                         'callers': [{'start': 0, 'batch': 0}] * 2 + [{'start': 0.9, 'batch': 0}, {'start': 1.0, 'batch': 2},
+                                                                     {'start': 1.1, 'batch': 0}, {'start': 1.2, 'batch': 0}],
+                         'lose_at': 1.6, 'horizon': 60})
         for w in range(nw + len(directed)):
             ncall = rng.choice([1, 3, 10, 40, 120])
             timeout = rng.choice([30.0, 5.0, 1.0])
@@ -348,6 +354,10 @@ class C20(Prop):
                         clause = 'a caller was still waiting after the response wait limit had passed since its request was written'
                     if c['out'] == 'TaskTimeout' and tw is not None and c['t1'] - tw < o['timeout'] - 1e-6:
                         clause = 'TaskTimeout before the response wait limit had passed'
+                    la = case.get('lose_at')
+                    if (la is not None and tw is not None and tw < la - 1e-6 and c['t1'] > la + 0.05 and c['out'] == 'TaskTimeout'):
+                        clause = (f"a caller whose request was outstanding when the connection was lost (t={la}) was released only by its own "
+                                  f"timeout at t={c['t1']:.3f}: outstanding requests are cancelled when the connection is lost")
                     ta = o['ans_time'].get(k)
                     if (case.get('lose_at') is None and not o['lost'] and tw is not None and ta is not None and ta - tw < o['timeout'] - 1e-6
                             and c['out'] != 'result'):
